@@ -56,6 +56,7 @@ type vC18Scenario struct {
 	Steps []vC18Step `json:"steps"`
 	Req   string     `json:"req"`
 	Craft string     `json:"craft"`
+	MM    string     `json:"mm"` // "empty": a mismatch answer is a collection with an empty manifest text
 	RSeed int64      `json:"rseed"`
 }
 
@@ -228,6 +229,9 @@ func vC18Run(scn vC18Scenario) []map[string]interface{} {
 		mt := honest.render(rng, b)
 		if plan == "mismatch" {
 			mt = vC18Tamper(rng, mt)
+			if scn.MM == "empty" {
+				mt = "" // 200 with the manifest stripped
+			}
 		}
 		if scn.Craft == "loc_eol" {
 			// a token swap that leaves a block locator at the end of a line, before a stream
